@@ -62,11 +62,9 @@ func parseRaceLog(log, modPath, libDir string) []raceReport {
 				if isLib {
 					rr.LibAny = true
 					if rr.LibTop[acc] == "" {
-						fn := l
-						if k := strings.Index(fn, "("); k > 0 {
-							fn = fn[:k]
-						}
+						fn := strings.TrimSuffix(l, "()")
 						fn = strings.TrimPrefix(fn, modPath+".")
+						fn = strings.TrimPrefix(fn, modPath+"/")
 						// file:line relative to lib dir
 						loc := strings.TrimPrefix(file, libDir+"/")
 						if k := strings.Index(loc, " "); k > 0 {
@@ -237,7 +235,7 @@ func refreshExpected(e *Env, session []workerlib.ExplicitRun) error {
 	}
 	res := make([]string, len(keys))
 	errs := make([]error, len(keys))
-	if len(keys) <= 64 {
+	if len(keys) <= 4000 {
 		parallel(len(keys), 16, func(i int) {
 			in, _ := common.UnB64(keys[i].in)
 			res[i], errs[i] = refOne(e, int(keys[i].api), in)
@@ -390,28 +388,42 @@ func (m *minimiser) minimise(s []workerlib.ExplicitRun) []workerlib.ExplicitRun 
 				}
 			}
 		}
-		// 3. drop calls
+		// 3. drop calls: ddmin over each task's call list (chunks first, then single calls)
 		for ri := range cur {
-			for again := true; again; {
-				again = false
-				var cands [][]workerlib.ExplicitRun
-				for ti := range cur[ri].Tasks {
-					for ci := range cur[ri].Tasks[ti] {
-						if len(cur[ri].Tasks[ti]) <= 1 {
+			for ti := 0; ti < len(cur[ri].Tasks); ti++ {
+				gran := 2
+				for len(cur[ri].Tasks[ti]) > 1 {
+					n := len(cur[ri].Tasks[ti])
+					if gran > n {
+						gran = n
+					}
+					per := (n + gran - 1) / gran
+					var cands [][]workerlib.ExplicitRun
+					for a := 0; a < n && len(cands) < 32; a += per {
+						b := a + per
+						if b > n {
+							b = n
+						}
+						if b-a >= n {
 							continue
 						}
 						c := cloneSession(cur)
 						t := c[ri].Tasks[ti]
-						c[ri].Tasks[ti] = append(t[:ci:ci], t[ci+1:]...)
+						c[ri].Tasks[ti] = append(t[:a:a], t[b:]...)
 						cands = append(cands, c)
 					}
-				}
-				if len(cands) > 48 {
-					cands = cands[:48]
-				}
-				if k := m.tryAll(cands); k >= 0 {
-					cur = cands[k]
-					changed, again = true, true
+					if k := m.tryAll(cands); k >= 0 {
+						cur = cands[k]
+						changed = true
+						if gran > 2 {
+							gran--
+						}
+						continue
+					}
+					if per <= 1 {
+						break
+					}
+					gran *= 2
 				}
 			}
 		}
@@ -732,3 +744,5 @@ func sanitize(s string) string {
 	}
 	return out
 }
+
+func simrtPolicyExplicit() simrt.Policy { return simrt.Policy{Kind: "explicit"} }
